@@ -679,6 +679,13 @@ class HolEnv:
         self.vars = {i: Var(self.names[i], T) for i, T in self.types.items()}
         self.arity = {0: 0, 1: 0, 2: 0, 3: 0, 4: 1, 5: 1, 6: 2, 7: 2}
 
+    def from_hol(self, T):
+        if T.is_comb():
+            return app(self.from_hol(T.fun), self.from_hol(T.arg))
+        if T.name.startswith("k") and T.name[1:].isdigit():
+            return atom(LIFT + int(T.name[1:]))
+        return atom(self.names.index(T.name))
+
     def to_hol(self, t):
         if t[0] == "a":
             if t[1] >= LIFT:
@@ -894,6 +901,32 @@ def naive_terms(eqs, universe):
     return fl, Naive(consts, combs, set(range(1, len(fl.terms) + 1)))
 
 
+class Trace(list):
+    """The partitions after every op (the list itself) plus, per op, the wrapper's internal constant table
+    `index` (None when the attribute is not there) and the answer of a `test` op."""
+
+    def __init__(self):
+        super().__init__()
+        self.tables = []
+        self.answers = []
+
+
+def term_sexp(t):
+    return t[1] if t[0] == "a" else [term_sexp(t[1]), term_sexp(t[2])]
+
+
+def sexp_term(x):
+    return atom(int(x)) if isinstance(x, str) else app(sexp_term(x[0]), sexp_term(x[1]))
+
+
+def wrapper_table(env, cl):
+    """CongClosureHOL.index (constant name s<k> -> term) as [(k, term)], or None if it cannot be read."""
+    try:
+        return sorted((int(k[1:]), env.from_hol(t)) for k, t in cl.index.items())
+    except Exception:  # noqa
+        return None
+
+
 def run_hol(ctx, env, congc, hops, limit=60):
     """Runs one term-level sequence on the real CongClosureHOL.  Returns (violation or None, parts)
     where parts is the list of term partitions (as sorted id pairs w.r.t. the harness flattener)
@@ -905,7 +938,7 @@ def run_hol(ctx, env, congc, hops, limit=60):
     cl = congc.CongClosureHOL()
     fl = Flattener()
     merged, sorried = [], []
-    parts = []
+    parts = Trace()
     H = env.to_hol
     with time_limit(limit):
         for i, op in enumerate(hops):
@@ -928,6 +961,7 @@ def run_hol(ctx, env, congc, hops, limit=60):
                     merged.append((op[1], op[2]))
                 elif kind == "test":
                     got = bool(cl.test(H(op[1]), H(op[2])))
+                    parts.answers.append(got)
                     want = eqn(op[1], op[2])
                     if got != want:
                         return ("hol-test-" + ("unsound" if got else "incomplete"), i,
@@ -971,6 +1005,9 @@ def run_hol(ctx, env, congc, hops, limit=60):
             if part != want_part:
                 return ("hol-partition", i, "after op %d the classes %s differ from the congruence closure %s" % (i, part, want_part)), parts
             parts.append(part)
+            parts.tables.append(wrapper_table(env, cl))
+            if len(parts.answers) < len(parts):
+                parts.answers.append(None)
     return None, parts
 
 
@@ -1003,6 +1040,7 @@ def report_hol(ctx, env, congc, hops, v, origin=None):
 
 def check_hol_batch(ctx, env, congc, seqs):
     lines, parts_all = [], []
+    hol_lines = {}
     for hops in seqs:
         nm = sum(1 for o in hops if o[0] == "merge")
         ctx.case(("hol", tuple(hops)), nontrivial=nm >= 2)
@@ -1025,16 +1063,47 @@ def check_hol_batch(ctx, env, congc, seqs):
         fl, spans = flatten_all([h[:3] for h in hops])
         core = [o for o in fl.ops if o[0] in ("add", "mc", "mf")]
         lines.append(ops_line(core))
+        hol_lines[len(lines) - 1] = sexp.dumps(["hol"] + [[{"addterm": "add"}.get(h[0], h[0])] + [term_sexp(x) for x in h[1:3]] for h in hops])
         # partitions after each high-level op = model partition after the last core op of its span
         parts_all.append((parts, fl, spans))
-    model = ctx.lean_driver(EXE, lines) if lines else []
+    order = sorted(hol_lines)
+    ctx.log("hol: implementation side done (%d histories)" % len(seqs))
+    model = ctx.lean_driver(EXE, lines + [hol_lines[i] for i in order]) if lines else []
+    ctx.log("hol: model side done")
     if model is None:
         return False
-    ndis = 0
+    wmodel = dict(zip(order, model[len(lines):]))
+    ndis = ntab = 0
     for idx, hops in enumerate(seqs):
         if parts_all[idx] is None:
             continue
         parts, fl, spans = parts_all[idx]
+        # the wrapper model (HolModel.lean): constant table and test answers after every call
+        wm = sexp.loads(wmodel[idx]) if idx in wmodel else "bad-op"
+        if isinstance(wm, list) and len(wm) == len(hops):
+            for hi, (hop, o) in enumerate(zip(hops, wm)):
+                tab = o if hop[0] in ("merge", "addterm") else o[1]
+                mtab = [(int(e[0]), sexp_term(e[1])) for e in tab[1:]]
+                itab = parts.tables[hi] if hi < len(parts.tables) else None
+                bad = None
+                if itab is None:
+                    ctx.count("hol-table-not-readable")
+                elif itab != mtab:
+                    bad = "after op %d the wrapper's table is %s, the model's %s" % (hi, [(k, term_str(t)) for k, t in itab], [(k, term_str(t)) for k, t in mtab])
+                else:
+                    ctx.count("hol-table-compared")
+                if hop[0] == "test" and hi < len(parts.answers) and parts.answers[hi] is not None and o[0] != ("T" if parts.answers[hi] else "F"):
+                    bad = "test at op %d answered %s, the wrapper model %s" % (hi, parts.answers[hi], o[0])
+                if bad:
+                    ntab += 1
+                    if ntab <= 3:
+                        ctx.broken("correspondence:c17:hol-wrapper", "hops=%s %s" % (hops_json(hops), bad))
+                        ctx.coverage["disagreements_checked"] += 1
+                    break
+        else:
+            ntab += 1
+            if ntab <= 3:
+                ctx.broken("correspondence:c17:hol-wrapper", "hops=%s model answered %s" % (hops_json(hops), str(wm)[:100]))
         m = sexp.loads(model[idx])
         mparts = [parse_model_out(x) for x in m] if isinstance(m, list) else []
         # index of the last mutating core op belonging to each high-level op
@@ -1090,7 +1159,7 @@ def run(ctx):
         "kernel checker theory.check_proof for the theorems returned by CongClosureHOL.explain (its soundness is property C01/C02)"]
     ctx.assumptions += [
         "the Lean model reads dictionaries that cannot miss with a default instead of KeyError",
-        "path_to_root / explain recursion carry fuel in the model; running out is an error outcome (Err.fuel from explain, State.stuck after a merge, reported by the driver as (err fuel)), never a shortened path or an answer"]
+        "path_to_root / explain recursion carry fuel in the model (len(proof_forest) steps / len(proof_forest)+1 levels); proof_forest_wellformed and explain_total prove that the bounds are never hit in a reachable state"]
     from prover import congc
     corpus = load_corpus(ctx)
     ctx.log("lean obligations audited")
@@ -1198,23 +1267,28 @@ def replay(ctx, rp):
 
 MANIFEST = {
     "text": "Lean theorems about an executable model of prover/congc.py CongClosure, for every sequence of add_var/merge calls (test and "
-            "explain do not change the structure, so every interleaving is covered): test_sound and test_complete (test answers True exactly "
-            "for the congruence closure of the merged equations, on entered constants; test_defined_iff_entered: KeyError exactly for "
-            "constants never entered), order_independent (same answers for any two sequences that merge the same equations up to symmetry and enter the same constants: any order, repetitions, flipped orientation, terms added beforehand or not; order_independent_perm is the same-members corollary) and renaming_invariant "
-            "(independent of how constants are numbered), pending_empty_after_merge (_propagate terminates within the modelled bound), "
-            "explain_uses_inputs (every label of a returned explanation is a merged equation / a pair of merged application equations with "
-            "congruent arguments, and the listed equations alone entail every explained pair). The model is tied to the code by differential "
-            "runs on generated operation sequences (partition induced by test after every operation, every test/explain result); the "
-            "implementation's own answers are judged by a naive fixpoint closure (both directions), explanations by re-deriving the equality "
-            "from their labels alone, order independence by running permutations; CongClosureHOL (typed curried terms) is run for real: "
-            "test against the naive closure on terms and against the model, explain through theory.check_proof (conclusion is the queried "
-            "equality, hypotheses and gaps are merged equations and entail it).",
+            "explain do not change the core structure, so every interleaving is covered): test_sound / test_complete (test answers True "
+            "exactly for the congruence closure of the merged equations; test_defined_iff_entered: KeyError exactly for constants never "
+            "entered), order_independent (+ _perm corollary) and renaming_invariant, pending_empty_after_merge (_propagate terminates within "
+            "the modelled bound), proof_forest_wellformed (keys, parents stay in the class, acyclic, one root per class, the walk bound "
+            "len(proof_forest) is never hit), explain_total (explain returns for every pair test reports equal: no KeyError, no assert, "
+            "recursion at most len(proof_forest)+1 deep -- time-stamp argument), explain_uses_inputs, explain_closed (the dictionary is "
+            "closed for its consumer), explain_complete_proof (re-running the verified decision procedure specTest on exactly the returned "
+            "equations derives the equality; specTest_iff). HOL wrapper: HolModel.lean models CongClosureHOL's term bookkeeping (add_const, "
+            "add_term with currying and fresh constants per subterm, merge, test); hol_tables_consistent, hol_test_sound (test True implies "
+            "derivable by congruence closure on terms, hence true in every model of the merged equations) and hol_test_complete (entailed "
+            "implies test True, whatever was entered before). The models are tied to the code by differential runs: core -- partition induced "
+            "by test after every operation, every test/explain result; wrapper -- the internal constant table `index` and every test answer "
+            "after every call. The implementation's own answers are judged by a naive fixpoint closure (both directions), explanations by "
+            "re-deriving the equality from their labels alone and by closedness, order independence by running permutations; "
+            "CongClosureHOL.explain goes through theory.check_proof (conclusion is exactly the queried equality, hypotheses and gaps are "
+            "merged equations and entail it).",
     "note": "Trusted: Lean kernel, propext/Classical.choice/Quot.sound, the harness generators/flattener/naive closure, theory.check_proof for "
-            "the HOL wrapper's theorems. Not proved in Lean: that explain never fails on equal constants (assertion / recursion bound; the "
-            "harness reports explain failing on a valid equality as a violation), that dictionary reads inside merge cannot raise KeyError "
-            "(model uses defaults; a KeyError in the code shows up as a disagreement and as a failed merge). The HOL wrapper (add_term, "
-            "proof-term assembly) is not modelled in Lean: order independence at the level of terms is Lean-proved only up to the flattening "
-            "(same core operations in any order, any injective renaming) and otherwise checked by the perm stream; ematch is outside the property.",
+            "the HOL wrapper's theorems. Not proved in Lean: that dictionary reads inside merge cannot raise KeyError (the model uses "
+            "defaults; a KeyError in the code shows up as a disagreement and as a failed merge). Not modelled: the proof-term assembly of "
+            "CongClosureHOL.explain (get_proofterm, the table pts) -- judged by the real checker on every generated history; abstractions "
+            "and bound variables in add_term; ematch (outside the property). HolModel carries a ghost log of the core calls (not in the Python) "
+            "to connect the wrapper to the core theorems.",
     "design_ref": "DESIGN.md 4/C17",
 }
 FINDINGS = [
